@@ -58,6 +58,33 @@ def _zero_axis_precision(spec, tb, fb):
     return b[2] / max(tb, 1e-9) >= 1e9 or b[3] / max(fb, 1e-9) >= 1e9
 
 
+def _fallback_grid(spec, tb, fb, rs):
+    """Same mechanism at smaller ratios, identified from the OUTPUT: when the largest coordinate of the buffer-scaled
+    space has d digits before the point and GEOS' full-precision buffer fails on the shape, GEOS retries on a grid of
+    12 significant digits, i.e. 10**(d - 12) buffer units.  Returns that grid (in buffer units) when the library's
+    outline is in fact quantised to it (>= 80 % of its vertices off the domain edges), else None.  The finding then
+    explains deviations of at most one grid unit -- anything larger is reported under its own key."""
+    if spec["type"] in ("TimeStamp", "TimeInterval", "BoundingBox") or not (tb > 0 and fb > 0) or rs["type"] not in ("Polygon", "MultiPolygon"):
+        return None
+    b = geoms.ref_bounds(spec)
+    m = max(b[2] / tb, b[3] / fb) + 2.0
+    if not 1e7 <= m < 2e9:
+        return None
+    grid = 10.0 ** (int(math.log10(m) + 1.0) - 12)
+    rings = rs["coordinates"] if rs["type"] == "Polygon" else [r for poly in rs["coordinates"] for r in poly]
+    on = off = 0
+    for ring in rings:
+        for t_, f_ in ring:
+            if t_ == 0 or f_ == 0 or f_ == MAXF:
+                continue
+            x, y = t_ / tb / grid, f_ / fb / grid
+            if abs(x - round(x)) <= 1e-3 and abs(y - round(y)) <= 1e-3:
+                on += 1
+            else:
+                off += 1
+    return grid if on and on >= 4 * off else None
+
+
 def _mech(spec, tb, fb):
     if _touches_edge_on_zero_axis(spec, tb, fb):
         return ":zero_buffer_on_domain_edge"
@@ -160,6 +187,11 @@ def _post_buffer(geometry, time_buffer, freq_buffer, kwargs, result):
     need = (max(b0[0] - ks[0] * tb, 0.0), max(b0[1] - ks[1] * fb, 0.0), b0[2] + ks[2] * tb, min(b0[3] + ks[3] * fb, MAXF))
     st, sf = 1e-9 * max(1.0, abs(b0[2])), 1e-9 * max(1.0, abs(b0[3]))
     if b1[0] > need[0] + st or b1[1] > need[1] + sf or b1[2] < need[2] - st or b1[3] < need[3] - sf:
+        grid = None if sfx else _fallback_grid(spec, tb, fb, rs)
+        short = max((b1[0] - need[0]) / tb if tb else 0, (b1[1] - need[1]) / fb if fb else 0, (need[2] - b1[2]) / tb if tb else 0, (need[3] - b1[3]) / fb if fb else 0)
+        if grid is not None and short <= grid:
+            sfx = ":extreme_axis_scaling"
+            c.note("extreme_axis_scaling:identified_from_quantised_outline")
         c.violate("bounds_extend", _key("bounds_extend", sfx), observed=list(b1), expected={"at_least": list(need), "original": list(b0)}, spec=sp)
     # contains the original
     try:
@@ -179,6 +211,10 @@ def _post_buffer(geometry, time_buffer, freq_buffer, kwargs, result):
                 (shapely.Point(p).distance(sr2) for p in shapely.get_coordinates(shapely.segmentize(outside, max(0.25, outside.length / 2000.0)))), default=0.0)
             # tolerance: 1e-6 of a buffer unit (GEOS round-off on clipped outlines)
             if far > 1e-6:
+                grid = None if sfx else _fallback_grid(spec, tb, fb, rs)
+                if grid is not None and far <= grid:
+                    sfx = ":extreme_axis_scaling"
+                    c.note("extreme_axis_scaling:identified_from_quantised_outline")
                 c.violate("contains_original", _key("contains_original", sfx), observed={"max_distance_in_buffer_units": far}, expected="result covers original", spec=sp)
     except Exception as e:
         c.note(f"contains_check_error:{type(e).__name__}")
